@@ -305,6 +305,14 @@ impl World {
         let owner = self.m.borrow().root_obj[owner_idx].unwrap();
         let _busy = self.busy(owner_idx);
         let Some(node) = self.node_of_root(owner_idx) else { return };
+        if let Some(mp) = self.m.borrow().objs[owner as usize].map {
+            // at the documented limit of Weak pointers to the cleaner's map the call would panic: skip it
+            let m = self.m.borrow();
+            let weak_now = m.cl_action.iter().flatten().filter(|a| m.actions[**a as usize].map == mp).count() as u32 + m.objs[mp as usize].bulk_cleanables;
+            if weak_now >= MAX_WEAK {
+                return;
+            }
+        }
         let first = self.m.borrow().objs[owner as usize].map.is_none();
         let map_id = match self.m.borrow().objs[owner as usize].map {
             Some(m) => m,
@@ -411,6 +419,100 @@ impl World {
         }
         self.m.borrow_mut().buf_model.insert(map);
         self.stats.borrow_mut().bump(if runs_after > runs_before { "clean_ran_action" } else { "clean_noop" });
+    }
+
+    /// Registers `n` no-op actions on the cleaner of the node at `owner_idx`, keeping the cleanables.
+    pub fn bulk_register(&self, owner_idx: usize, n: u32) {
+        if !HAS_CLEAN || n == 0 {
+            return;
+        }
+        let owner = self.m.borrow().root_obj[owner_idx].unwrap();
+        if self.m.borrow().objs[owner as usize].map.is_none() {
+            self.register(owner_idx, None, &vec![]); // creates the map (and may start an automatic collection)
+            if self.dead.get() {
+                return;
+            }
+        }
+        let Some(map_id) = self.m.borrow().objs[owner as usize].map else { return };
+        let _busy = self.busy(owner_idx);
+        let Some(node) = self.node_of_root(owner_idx) else { return };
+        let weak_now = {
+            let m = self.m.borrow();
+            m.cl_action.iter().flatten().filter(|a| m.actions[**a as usize].map == map_id).count() as u32 + m.objs[map_id as usize].bulk_cleanables
+        };
+        let k = n.min(MAX_WEAK.saturating_sub(weak_now));
+        let mut v: Vec<Cleanable> = Vec::with_capacity(k as usize);
+        self.lib(LibCall::Register, || {
+            for _ in 0..k {
+                v.push(node.cleaner.register(move || cb_bulk_action(map_id)));
+            }
+        });
+        self.sync();
+        {
+            let mut m = self.m.borrow_mut();
+            m.objs[map_id as usize].bulk_registered += k;
+            m.objs[map_id as usize].bulk_cleanables += k;
+        }
+        self.t.borrow_mut().bulk_cleanables.entry(map_id).or_default().append(&mut v);
+        self.stats.borrow_mut().add("actions_registered_in_bulk", k as u64);
+        if n > k {
+            // one more: the Weak inside the new Cleanable cannot be created (documented limit). The action itself is
+            // already in the map by then, so it runs when the Cleaner is dropped.
+            self.stats.borrow_mut().bump("limit_reached_by_register");
+            let r = catch_unwind(AssertUnwindSafe(|| {
+                let _ = self.lib(LibCall::Register, || node.cleaner.register(move || cb_bulk_action(map_id)));
+            }));
+            self.stats.borrow_mut().bump("limit_attempt");
+            match r {
+                Ok(()) => self.fail("O-SAT.nopanic", format!("registering a cleaning action succeeded although {} Cleanables (Weak pointers to the cleaner's map) already exist", MAX_WEAK)),
+                Err(p) => {
+                    if p.is::<Injected>() || p.is::<HarnessError>() {
+                        std::panic::resume_unwind(p);
+                    }
+                    if !panic_message(&p).contains("Too many references") {
+                        self.fail("O-SAT.message", format!("register at the limit panicked with an unexpected message: {}", panic_message(&p)));
+                    }
+                    self.m.borrow_mut().objs[map_id as usize].bulk_registered += 1;
+                }
+            }
+        }
+    }
+
+    /// clean() on the next `n` kept cleanables of that node's cleaner: each must run its action now.
+    pub fn bulk_clean(&self, owner_idx: usize, n: u32) {
+        if !HAS_CLEAN {
+            return;
+        }
+        let owner = self.m.borrow().root_obj[owner_idx].unwrap();
+        let Some(map_id) = self.m.borrow().objs[owner as usize].map else { return };
+        let (from, have, runs_before, alive, tainted) = {
+            let m = self.m.borrow();
+            let ob = &m.objs[map_id as usize];
+            (ob.bulk_cleaned, ob.bulk_cleanables, ob.bulk_runs, ob.status == Status::Live && m.objs[owner as usize].status == Status::Live, ob.tainted)
+        };
+        let k = n.min(have.saturating_sub(from));
+        if k == 0 {
+            return;
+        }
+        let ptrs: Vec<*const Cleanable> = {
+            let t = self.t.borrow();
+            t.bulk_cleanables.get(&map_id).map(|v| v[from as usize..(from + k) as usize].iter().map(|c| c as *const Cleanable).collect()).unwrap_or_default()
+        };
+        self.lib(LibCall::Other, || {
+            for p in &ptrs {
+                unsafe { &**p }.clean();
+            }
+        });
+        self.sync();
+        let mut m = self.m.borrow_mut();
+        m.objs[map_id as usize].bulk_cleaned += k;
+        let runs_after = m.objs[map_id as usize].bulk_runs;
+        m.buf_model.insert(map_id);
+        if alive && !tainted && runs_after != runs_before + k {
+            let msg = format!("clean() was called on {} Cleanables whose actions had not run, but {} actions ran", k, runs_after - runs_before);
+            drop(m);
+            self.fail("O-CLEAN.clean", msg);
+        }
     }
 
     pub fn drop_cleanable(&self, c: usize) {
